@@ -13,7 +13,25 @@
 //                       Behaviour::record_received (up to `let now = Instant::now();`);
 //                       falling through it sets `reached_store_path` (every
 //                       `store.put` of record_received lies after that point).
-include!(concat!(env!("LIBP2P_VERIF"), "/shims/clock.rs"));
+// `Instant::now` is stubbed by a clock WITHOUT state: every call returns an arbitrary
+// valid Instant (the fragments only add the ttl to it; no assertion below reads an
+// expiry).  shims/clock.rs is deliberately not used here: its `static mut NOW_SECS:
+// u64 = 0` is content-identical to the 8-byte zero constant `RawVecInner::ZERO_CAP`,
+// and Kani 0.68 codegens that constant as a read of the static (seen in the goto
+// program of `RawVecInner::new_in`), so after `clock::set(s, _)` every `Vec::new()`
+// had capacity `s` and dropping the empty `Vec<Multiaddr>` of an unmoved KadPeer
+// "deallocated" a dangling pointer (kani_lib.c:85) - a tool artefact, not a defect.
+pub(crate) mod clock {
+    use std::time::{Duration, Instant};
+    pub(crate) fn now() -> Instant {
+        let s: u64 = kani::any();
+        let n: u32 = kani::any();
+        kani::assume(s <= 1 << 40);
+        kani::assume(n < 1_000_000_000);
+        let zero: Instant = unsafe { std::mem::zeroed() };
+        zero + Duration::new(s, n)
+    }
+}
 
 pub(crate) struct LocalKey(PeerId);
 impl LocalKey {
@@ -118,7 +136,6 @@ fn kad_peer(node_id: PeerId) -> KadPeer {
 #[kani::unwind(8)]
 #[kani::stub(std::time::Instant::now, clock::now)]
 fn contract_add_provider_only_from_provider() {
-    clock::set_any(1 << 40);
     let (l, s, a): (u8, u8, u8) = (kani::any(), kani::any(), kani::any());
     let (local, source, announced) = (peer(l), peer(s), peer(a));
     let mut env = any_env(local);
@@ -147,7 +164,6 @@ fn contract_add_provider_only_from_provider() {
 #[kani::unwind(8)]
 #[kani::stub(std::time::Instant::now, clock::now)]
 fn contract_provider_received_never_local() {
-    clock::set_any(1 << 40);
     let (l, a): (u8, u8) = (kani::any(), kani::any());
     let mut env = any_env(peer(l));
     env.provider_received(record::Key::from(Vec::new()), kad_peer(peer(a)));
@@ -191,58 +207,8 @@ fn contract_put_value_local_publisher_guard() {
 #[kani::unwind(8)]
 #[kani::stub(std::time::Instant::now, clock::now)]
 fn canary_add_provider_never_stored() {
-    clock::set_any(1 << 40);
     let (l, s, a): (u8, u8, u8) = (kani::any(), kani::any(), kani::any());
     let mut env = any_env(peer(l));
     env.on_add_provider(peer(s), record::Key::from(Vec::new()), kad_peer(peer(a)));
     assert!(env.store.add_calls == 0);
-}
-
-// ---- TEMP debug harnesses (to be removed) ----
-fn dbg_env(local: PeerId, ttl: Option<Duration>, unfiltered: bool, refuse: bool) -> Env {
-    Env {
-        kbuckets: Buckets { local: LocalKey(local) },
-        provider_record_ttl: ttl,
-        record_filtering: if unfiltered { StoreInserts::Unfiltered } else { StoreInserts::FilterBoth },
-        store: RecStore { add_calls: 0, last_provider: None, refuse },
-        queued_events: EvQ { pushed: 0, offered_provider: None },
-        reached_store_path: false,
-    }
-}
-#[kani::proof]
-#[kani::unwind(8)]
-fn dbg1_unfiltered_ok_nottl() {
-    let mut env = dbg_env(peer(1), None, true, false);
-    env.provider_received(record::Key::from(Vec::new()), kad_peer(peer(2)));
-    assert!(env.store.add_calls == 1);
-}
-#[kani::proof]
-#[kani::unwind(8)]
-fn dbg2_unfiltered_refuse() {
-    let mut env = dbg_env(peer(1), None, true, true);
-    env.provider_received(record::Key::from(Vec::new()), kad_peer(peer(2)));
-    assert!(env.store.add_calls == 1);
-}
-#[kani::proof]
-#[kani::unwind(8)]
-fn dbg3_filterboth() {
-    let mut env = dbg_env(peer(1), None, false, false);
-    env.provider_received(record::Key::from(Vec::new()), kad_peer(peer(2)));
-    assert!(env.store.add_calls == 0);
-}
-#[kani::proof]
-#[kani::unwind(8)]
-fn dbg4_local() {
-    let mut env = dbg_env(peer(1), None, true, false);
-    env.provider_received(record::Key::from(Vec::new()), kad_peer(peer(1)));
-    assert!(env.store.add_calls == 0);
-}
-#[kani::proof]
-#[kani::unwind(8)]
-#[kani::stub(std::time::Instant::now, clock::now)]
-fn dbg5_ttl() {
-    clock::set(5, 0);
-    let mut env = dbg_env(peer(1), Some(Duration::from_secs(7)), true, false);
-    env.provider_received(record::Key::from(Vec::new()), kad_peer(peer(2)));
-    assert!(env.store.add_calls == 1);
 }
